@@ -37,6 +37,13 @@ PROPS = {
                 "with drawn delays so that termination and join/interrupt race; all policies except shared-priority (known finding).",
         "required_probes": ["join.target_already_done", "join.target_running", "interrupted", "stop_observed", "double_join", "self_join", "detach"],
     },
+    "C14": {
+        "quick_runs": 8000, "thorough_runs": 500000, "seed": 14000001,
+        "rule": "C14 histories: 2-5 parties (tasks / OS threads) x stop_source copy/move/copy-assign/swap/destroy, token checks, "
+                "stop_callback construct (before/after stop) and destroy (other thread, inside own callback, inside another "
+                "callback), racing request_stop over two stop states; one sub-workload uses plain OS threads only.",
+        "required_probes": ["request_stop.won", "request_stop.lost", "cb.ran_in_constructor", "cb.destroy_self", "cb.dtor_waited_for_running_callback"],
+    },
     "C06": {
         "quick_runs": 6000, "thorough_runs": 400000, "seed": 6000001,
         "rule": "C06 programs: 2-8 parties x lock/try_lock/try_lock_for/try_lock_until sections (yields, sleeps and migrations "
